@@ -190,7 +190,12 @@ const crsLikeConfig = `patterns:
 func genC03(t *rapid.T, tier string) (*World, any) {
 	opts := ProgOpts{Spicy: chance(t, 30, "spicy"), Flags: true, PrefixSufx: true, Blocks: true, Cmdline: true, Defs: true,
 		Pairs: true, Ambiguous: true, Comments: true, MaxLines: 10, StoredNames: true}
-	nT := drawInt(t, 1, 2, "ntargets")
+	maxT := 2
+	if tier == "thorough" {
+		opts.MaxLines = 25
+		maxT = 4
+	}
+	nT := drawInt(t, 1, maxT, "ntargets")
 	cw := drawCRSWorld(t, "w", nT, opts, RulesOpts{})
 	// cyclic / computed definitions belong to "all programs" as well
 	if chance(t, 15, "cyclic") {
